@@ -176,6 +176,8 @@ func Run(c *Case, ro RunOpts) *Trace {
 	}
 	if cfg.Dry {
 		opts = append(opts, dig.DryRun(true))
+	} else if cfg.DryBoth {
+		opts = append(opts, dig.DryRun(true), dig.DryRun(false))
 	} else if cfg.DryFalse {
 		opts = append(opts, dig.DryRun(false))
 	}
